@@ -46,13 +46,21 @@ def build_cases(tier, seed):
         cs.append(("tb", c))
     for c in common.weak_profiles("quick"):
         cs.append(("tbw", c))
+    # non-dyadic weights (exact ties that float totals would miss), with a float score vector for Borda
+    nine = fam.bullet_family(3) + fam.perm_family(3)
+    thirds = (F(2, 3), 3, F(8, 3))
+    for combo in itertools.combinations(range(len(nine)), 3):
+        for ws in (thirds, (thirds[2], thirds[0], thirds[1])):
+            cs.append(("tbw", (c3, tuple((nine[k], w) for k, w in zip(combo, ws)))))
+    for c in fam.prof_list(fam.rank_family(3), 2, (F(1, 3), F(2, 3)), c3)[:: (3 if tier == "quick" else 1)]:
+        cs.append(("tbw", c))
     for k in (2, 3, 4):
         cs.append(("set", k))
     _CASES = cs
     meta = {
         "family": famtxt + " x m x {RandomDictator, BoostedRandomDictator} (exact law of the winner sequence); "
-                  "random tiebreaks: " + common.family_text(tier, rational=False, extra4=False) + " and Prof(Weak(3),2,{1,2}) x "
-                  "{Plurality, Borda, STV/IRV/SequentialRCV ties of every round, conditional on the rounds before} with tiebreak='random'; tiebreak_set on sets of size 2..4",
+                  "random tiebreaks: " + common.family_text(tier, rational=False, extra4=False) + " and Prof(Weak(3),2,{1,2}) and three-ballot profiles over Bullet(3)+Perm(3) with weights (2/3,3,8/3) x "
+                  "{Plurality, Borda (conventional vector and the float vector (1.0,0.5,0.0)), STV/IRV/SequentialRCV ties of every round, conditional on the rounds before} with tiebreak='random'; tiebreak_set on sets of size 2..4",
         "assumptions": ["laws of random.choices / random.sample / np.random.choice / a uniform variate are trusted (E1 table)",
                         "states with no first-place weight left are outside C17 (law undefined), judged by C01",
                         "BoostedRandomDictator computes its squares in float64: compared within 1e-12"],
@@ -184,13 +192,15 @@ def run_tb(i, case, kind, cnt, out):
     n = len(cs)
     E = vkit.election_fn
     # single-round rules: every tied candidate equally likely to take the contested seats
-    for rule, scf in (("Plurality", refs.ref_fpv), ("Borda", refs.ref_borda)):
+    fvec = (1.0, 0.5, 0.0)
+    for rule, scf, extra in (("Plurality", refs.ref_fpv, {}), ("Borda", refs.ref_borda, {}),
+                             ("Borda", lambda c: refs.ref_positional(c, fvec), {"score_vector": fvec})):
         sc = scf(case)
         for m in range(1, n + 1):
             t = refs.TopM(sc, m)
             if not t.straddles:
                 continue
-            kw = dict(m=m, tiebreak="random")
+            kw = dict(m=m, tiebreak="random", **extra)
             pe = {c: F(0) for c in t.tied}
             res = {}
             bad = False
